@@ -33,6 +33,7 @@ func main() {
 	bounds := flag.String("bounds", "", "debug: run the K-BOUNDS length dataflow on function specs (comma separated), numberenc/binary readers only")
 	dumpAnchors := flag.Bool("dump-anchors", false, "print, as JSON, the unexported function anchors of all properties with their callers and those callers' unexported callees (input of props/anchors_frozen.go)")
 	vocab := flag.String("vocab", "", "with -dump-anchors: file of identifiers that rules use inside patterns; unexported functions and fields of those names are frozen too")
+	mergeCensus := flag.Bool("merge-census", false, "debug: list every two-cursor merge loop with the verdict of the merge-progress idiom")
 	siblings := flag.String("siblings", "", "debug: compare the call/guard profiles of a family of sibling functions (comma separated specs)")
 	flag.Parse()
 	if *dumpAnchors {
@@ -194,6 +195,22 @@ func main() {
 		}
 		b, _ := json.MarshalIndent(map[string]any{"funcs": out, "fields": fields, "structs": structs}, "", " ")
 		fmt.Println(string(b))
+		return
+	}
+	if *mergeCensus {
+		prog, err := an.Load(*repo)
+		if err != nil {
+			fmt.Println(err)
+			os.Exit(2)
+		}
+		prog.DisableInline = true
+		if flag.NArg() > 0 {
+			prog.MergeDebug(flag.Arg(0))
+			return
+		}
+		for _, l := range prog.MergeCensus() {
+			fmt.Println(l)
+		}
 		return
 	}
 	if *siblings != "" {
